@@ -312,6 +312,12 @@ class Check:
         self.seed = int(seed if seed is not None else os.environ.get("VERIF_SEED", "1") or 1)
         self.t0 = time.time()
         self.dir = os.path.join(BUILD, prop)
+        # two runs of the same check share this directory: the second one waits for the first
+        import fcntl
+        os.makedirs(BUILD, exist_ok=True)
+        self._lock = open(os.path.join(BUILD, prop + ".lock"), "w")
+        fcntl.flock(self._lock, fcntl.LOCK_EX)
+        self.t0 = time.time()
         shutil.rmtree(self.dir, ignore_errors=True)
         os.makedirs(self.dir, exist_ok=True)
         self.cov = {"states": 0, "transitions": 0, "traces_validated_against_impl": 0, "samples": [],
